@@ -35,11 +35,21 @@
 (*   sid     as ops, with every enumerated spelling of the signer identity *)
 (*           (server name x key ID, SidPairs); the other families rotate   *)
 (*           the spellings over their scenarios                            *)
+(*   edge    as ops, on proto-events at the edge of what is an event: a     *)
+(*           content / unsigned in which an object below the top level      *)
+(*           names a member twice (RepKinds), a depth at or beyond 2^53     *)
+(*           (HighDepths; the sib family pairs them: Sibling(depth_up))     *)
+(*   alias   Build, one optional operation, Fork (every way to a second     *)
+(*           handle on the SAME bytes), Edit(who, o): one operation on one  *)
+(*           handle; every other handle must report what it did before     *)
+(*   tamper  ... also TamperBulk: a wire form over the size limit whose     *)
+(*           event proper (after the keys stripped on receipt are gone,    *)
+(*           after redaction if the hash fails) may be within it           *)
 (***************************************************************************)
 EXTENDS Redaction
 
 CONSTANTS Versions,     \* room versions enumerated
-          Family,       \* "ops" | "num" | "len" | "sid" | "sib" | "tamper"
+          Family,       \* "ops" | "num" | "len" | "sid" | "edge" | "sib" | "alias" | "tamper"
           ShapeIds,     \* event shapes (type x state key x content) enumerated
           VariantIds,   \* prev/auth/depth/unsigned variants enumerated
           MaxOps,       \* ops: length of the behaviours
@@ -58,9 +68,11 @@ VARIABLES ver,       \* room version
           ids,       \* history: identity tokens, first the built event's, then one per step
           hist,      \* history: steps [op, arg, idc, red]; idc = index in ids of the first equal token
           wire,      \* tamper: the event as tampered with on the wire
-          out,       \* sib / tamper: the outcome record
+          out,       \* sib / tamper / alias: the outcome record
+          hs,        \* alias: handle -> [e, red, sigs], what each handle on the shared bytes reports now
+          kept,      \* alias, history: what every handle reported when it was made (= the bytes a caller kept)
           phase
-vars == <<ver, proto, built, ev, sigs, redacted, ids, hist, wire, out, phase>>
+vars == <<ver, proto, built, ev, sigs, redacted, ids, hist, wire, out, hs, kept, phase>>
 
 A == RedactionAlgo(ver)
 
@@ -155,8 +167,24 @@ Variant(w) ==
       [] w = 7 -> [prev |-> "p1", auth |-> "acl", depth |-> "d2", unsigned |-> "none", ts |-> "t1"]   \* [a1, create]
       [] w = 8 -> [prev |-> "p1", auth |-> "acm", depth |-> "d2", unsigned |-> "none", ts |-> "t1"]   \* [a1, create, a2]
       [] w = 9 -> [prev |-> "p1", auth |-> "acx", depth |-> "d2", unsigned |-> "none", ts |-> "t1"]   \* [create, a1, create]
+      \* depths at and beyond 2^53 - 1 (family edge; family sib: with Sibling(depth_up / depth_max)):
+      \* d3 = 2^53 - 1, d4 = 2^53, d5 = 2^53 + 1, d6 = 2^63 - 2, d7 = 2^63 - 1 (the largest a 64-bit reader holds)
+      [] w = 10 -> [prev |-> "p1", auth |-> "a2", depth |-> "d4", unsigned |-> "none", ts |-> "t1"]
+      [] w = 11 -> [prev |-> "p1", auth |-> "a2", depth |-> "d5", unsigned |-> "none", ts |-> "t1"]
+      [] w = 12 -> [prev |-> "p1", auth |-> "a2", depth |-> "d6", unsigned |-> "none", ts |-> "t1"]
+      [] w = 13 -> [prev |-> "p1", auth |-> "a2", depth |-> "d7", unsigned |-> "none", ts |-> "t1"]
+      [] w = 14 -> [prev |-> "p1", auth |-> "a2", depth |-> "d3", unsigned |-> "none", ts |-> "t1"]
+      \* an unsigned section in which a nested object names a member twice (see RepKinds)
+      [] w = 15 -> [prev |-> "p1", auth |-> "a2", depth |-> "d2", unsigned |-> "urep", ts |-> "t1"]
 AllVariants == 1..9
 CreateCiting == {7, 8, 9}
+EdgeVariants == 10..15            \* enumerated by the families edge and sib only, on EdgeShapes
+DepthVariants == 10..14
+EdgeShapes == {1, 3, 7}           \* message, custom state event, create event
+\* Depth: an integer.  Room versions 6+ are canonical JSON, whose integers end at 2^53 - 1: a proto-event of greater
+\* depth is no event there and Build must refuse it; room versions 1-5 take any depth a 64-bit reader holds, the event
+\* round-trips and - the depth being part of the redacted event - events that differ in it have different IDs.
+HighDepths == {"d4", "d5", "d6", "d7"}
 
 \* --- numbers in the content (family num) --------------------------------------------------------------
 \* Room versions 6+ ("Canonical JSON" of room version 6): an event is canonical JSON: every number is an integer
@@ -167,10 +195,23 @@ CanonicalNums == {"max", "min", "zero"}            \* 9007199254740991, -9007199
 NonCanonicalNums == {"frac", "exp", "capexp", "big", "negbig", "negzero", "fraczero", "nested"}
                                                   \* 1.5, 1e3, 1E2, 2^53, -(2^53), -0, 2.0, {"a":[1.5]}
 AllNumKinds == CanonicalNums \cup NonCanonicalNums
-NumKinds == IF Family = "num" THEN AllNumKinds ELSE {"none"}
+\* --- a member name repeated below the top level (family edge) ---------------------------------------------------
+\* The content (and unsigned) of a proto-event is JSON text the caller supplies.  A text in which an object names a
+\* member twice is ambiguous (RFC 8259, section 4) but it is JSON, no clause of the event format excludes it, and Build
+\* signs and hands out what it is given: so the event Build hands out must be an event for every parse path - in
+\* particular it re-parses from its own JSON as untrusted input (PBuildOrRefuse; a Build that refuses such a
+\* proto-event is consistent too: RepMayRefuse).  The content key zz_num carries the repeat:
+\*   rep-content  the member zz_num itself stands twice in the content      {"zz_num":"first",...,"zz_num":"second"}
+\*   rep-nested   its value is an object naming a member twice              {"zz_num":{"a":1,"a":2}}
+\*   rep-deeper   two levels down                                           {"zz_num":{"m":{"event_id":"$a","event_id":"$b"}}}
+\*   rep-array    inside an array element                                   {"zz_num":[1,{"k":"a","k":"b"}]}
+\* (the unsigned section with a repeat: Variant 15).  To the model the text is one opaque value like any other.
+RepKinds == {"rep-content", "rep-nested", "rep-deeper", "rep-array"}
+NumKinds == IF Family = "num" THEN AllNumKinds ELSE IF Family = "edge" THEN {"none"} \cup RepKinds ELSE {"none"}
 NumOf(e) == IF "zz_num" \in DOMAIN e.con THEN e.con["zz_num"] ELSE "none"
+DepthOf(e) == IF "depth" \in DOMAIN e.top THEN e.top["depth"] ELSE "none"
 \* what a receiving server of the room version accepts as an event at all
-Acceptable(v, e) == ~EnforcedCanonJSON(v) \/ NumOf(e) \notin NonCanonicalNums
+Acceptable(v, e) == ~EnforcedCanonJSON(v) \/ (NumOf(e) \notin NonCanonicalNums /\ DepthOf(e) \notin HighDepths)
 \* Build refuses the proto-events that cannot become an event
 \* --- lengths at the limit (family len) ------------------------------------------------------------------
 \* "The length of type / state_key / sender must not exceed 255 bytes" (and not 255 code points either).  One
@@ -186,7 +227,10 @@ LimKinds(v) == IF Family = "len" THEN (FineLims \cup OverLims) \ (IF PseudoIDs(v
                ELSE IF Family = "tamper" THEN {"none"} \cup PersistLims
                ELSE {"none"}
 BuildRefuses(v, p) == \/ (EnforcedCanonJSON(v) /\ p.num \in NonCanonicalNums)
+                      \/ (EnforcedCanonJSON(v) /\ p.depth \in HighDepths)
                       \/ (p.lim \in OverLims /\ ~(Family = "tamper" /\ p.lim \in PersistLims))
+\* an ambiguous text: Build may refuse it (then there is no event and nothing to hold)
+RepMayRefuse(p) == p.num \in RepKinds \/ p.unsigned = "urep"
 
 \* --- signer identities (family sid; rotated over the scenarios of the other families) ----------------------
 \* "All signer identities": a signer is (server name, key ID, key).  origin / sigkey say WHICH server and WHICH of
@@ -218,14 +262,31 @@ SpellingsOf(v, i, w) ==
     ELSE IF Family = "tamper" THEN {<<"dns", KeySeq[(k % Len(KeySeq)) + 1]>>}
     ELSE {<<NameSeq[(k % Len(NameSeq)) + 1], KeySeq[(k % Len(KeySeq)) + 1]>>}
 
-ProtoOf(i, w, n, lm, sp) ==
-    LET s == Shape(i)  x == Variant(w) IN
-    [type |-> s.type, redacts |-> s.redacts, tpi |-> s.tpi, num |-> n, lim |-> lm,
+\* --- sizes (family tamper, TamperBulk) ----------------------------------------------------------------------------
+\* "The complete event MUST NOT be larger than 65536 bytes".  The limit is on the EVENT: the keys a receiving server
+\* strips (added in transit by other servers) are not part of it, the white space between its members is not, and
+\* when the content hash fails the event that surfaces - and is measured - is the redacted one.  Sizes are ranks in
+\* KiB: every event of the model weighs 1, a value token "big40" 40 (the genuine, large event: content key zz_big,
+\* outside every keep list but the create event's from room version 11 on), "bulk30" / "bulk70" what a tampering adds.
+SizeLimit == 64
+Heavy(e, tok) == Cardinality({k \in DOMAIN e.top \ {"hashes"} : e.top[k] = tok}) + Cardinality({k \in DOMAIN e.con : e.con[k] = tok})
+Size(e) == 1 + 40 * Heavy(e, "big40") + 30 * Heavy(e, "bulk30") + 70 * Heavy(e, "bulk70")
+TooLarge(e) == Size(e) > SizeLimit
+\* room versions and shapes on which the size dimension is enumerated (a configuration may override; no versions = off)
+BulkVersions == Versions
+BulkShapes == {1, 7}               \* message; create event (all of its content is kept from room version 11 on)
+BigKinds == IF Family = "tamper" /\ BulkVersions # {} THEN {"none", "mid"} ELSE {"none"}
+
+ProtoOf(i, w, n, lm, sp, bg) ==
+    LET s == Shape(i)  x == Variant(w)
+        extra == (IF n = "none" THEN {} ELSE {"zz_num"}) \cup (IF bg = "none" THEN {} ELSE {"zz_big"})
+    IN
+    [type |-> s.type, redacts |-> s.redacts, tpi |-> s.tpi, num |-> n, lim |-> lm, big |-> bg,
      sk |-> IF lm \in {"sk-b255", "sk-cp255", "sk-b256"} THEN "long" ELSE s.sk,
-     con |-> IF n = "none" THEN s.con ELSE [k \in DOMAIN s.con \cup {"zz_num"} |-> IF k = "zz_num" THEN n ELSE s.con[k]],
+     con |-> [k \in DOMAIN s.con \cup extra |-> IF k = "zz_num" THEN n ELSE IF k = "zz_big" THEN "big40" ELSE s.con[k]],
      prev |-> x.prev, auth |-> x.auth, depth |-> x.depth, unsigned |-> x.unsigned,
      room |-> "r1", sender |-> "alice", ts |-> x.ts, origin |-> "hs1", sigkey |-> "k1",
-     sname |-> sp[1], skey |-> sp[2]]
+     sname |-> sp[1], skey |-> sp[2], edge |-> w \in EdgeVariants]
 
 IsCreate(p) == p.type = "m.room.create" /\ p.sk = "empty"
 \* room versions with domainless room IDs: the create event carries no room_id (the room ID *is* its event ID)
@@ -282,16 +343,24 @@ Log(op, arg, e2, r2) ==
     /\ ids' = Append(ids, Id(ver, e2))
 
 NoOut == [kind |-> "none"]
-OpsFamilies == {"ops", "num", "len", "sid"}      \* Build, then MaxOps operations
+OpsFamilies == {"ops", "num", "len", "sid", "edge"}      \* Build, then MaxOps operations
 
 Init ==
     /\ \E v \in Versions, w \in VariantIds, n \in NumKinds : \E i \in ShapesOf(v) : \E lm \in LimKinds(v) :
-       \E sp \in SpellingsOf(v, i, w) :
-          LET p == ProtoOf(i, w, n, lm, sp) IN
+       \E sp \in SpellingsOf(v, i, w), bg \in BigKinds :
+          LET p == ProtoOf(i, w, n, lm, sp, bg) IN
           \* the create event cited explicitly: where there is a room ID to derive it from
           /\ (w \in CreateCiting => DomainlessRoomIDs(v) /\ ~Roomless(v, p))
           \* tamper: the over-long state key / type on the custom state event
           /\ (Family = "tamper" /\ lm # "none" => i = 3)
+          \* the edge of what is an event: one dimension at a time, on three shapes; the high depths also in the
+          \* sib family (where an edge variant meets the sibling fields that can tell: SibEdgeFields)
+          /\ (w \in EdgeVariants => Family \in {"edge", "sib"} /\ i \in EdgeShapes /\ n = "none")
+          /\ (w = 15 => Family = "edge")
+          /\ (n \in RepKinds => i \in EdgeShapes)
+          /\ (Family = "edge" => w \in EdgeVariants \/ n # "none")
+          \* tamper: the event that is large in itself (BigKinds) is the message or the create event
+          /\ (bg # "none" => i \in BulkShapes /\ lm = "none" /\ v \in BulkVersions)
           /\ ver = v
           /\ proto = p
           /\ built = BuildEvent(v, p, "E1")
@@ -302,25 +371,37 @@ Init ==
     /\ hist = <<>>
     /\ wire = NoEvent
     /\ out = NoOut
+    /\ hs = EmptyFn
+    /\ kept = [e |-> NoEvent, red |-> FALSE, sigs |-> EmptyFn]
     /\ phase = IF BuildRefuses(ver, proto) THEN "refused"       \* no event: nothing else can happen
               ELSE IF Family \in OpsFamilies THEN "ops" ELSE "pre"
 
 \* --- operations (each is one public call on the PDU) -----------------------------------------------------------
 OpNames == {"RU", "RT", "RH", "SU1", "SU2", "SF", "AS1", "AS2", "RD"}
+EditNames == {"SU1", "SU2", "SF", "SFs", "SFe", "SFl", "AS2", "RD"}        \* alias: the operations that change an event
 
-\* the effect of operation o: [e, red, sigs]
-Effect(o) ==
-    CASE o = "RU" -> LET r == ParseUntrusted(ver, ev) IN [e |-> r.e, red |-> r.red, sigs |-> sigs]
-      [] o = "RT" -> [e |-> ev, red |-> redacted, sigs |-> sigs]       \* NewEventFromTrustedJSON(json, Redacted())
-      [] o = "RH" -> [e |-> ev, red |-> redacted, sigs |-> sigs]       \* ToHeaderedJSON + NewEventFromHeaderedJSON
-      [] o = "SU1" -> [e |-> SetTop(ev, "unsigned", "u8"), red |-> redacted, sigs |-> sigs]
-      [] o = "SU2" -> [e |-> SetTop(ev, "unsigned", "u9"), red |-> redacted, sigs |-> sigs]
-      [] o = "SF" -> [e |-> SetTop(ev, "unsigned", "uf"), red |-> redacted, sigs |-> sigs]
-      [] o = "AS1" -> [e |-> ev, red |-> redacted,                      \* same server, another key
-                       sigs |-> [s \in DOMAIN sigs \cup {"hs1/k2"} |-> IF s = "hs1/k2" THEN SignedProj(A, ev) ELSE sigs[s]]]
-      [] o = "AS2" -> [e |-> ev, red |-> redacted,                      \* another server
-                       sigs |-> [s \in DOMAIN sigs \cup {"hs2/k1"} |-> IF s = "hs2/k1" THEN SignedProj(A, ev) ELSE sigs[s]]]
-      [] o = "RD" -> [e |-> RedactV(ver, ev), red |-> TRUE, sigs |-> sigs]
+\* the effect of operation o on an event x = [e, red, sigs]: the event it leaves / returns
+\* SFs / SFe / SFl: SetUnsignedField on a field the unsigned section HAS (age), the new value's encoding shorter than /
+\* as long as / longer than the one it replaces; SF: a field it has not
+EffectOf(x, o) ==
+    CASE o = "RU" -> LET r == ParseUntrusted(ver, x.e) IN [e |-> r.e, red |-> r.red, sigs |-> x.sigs]
+      [] o = "RT" -> x                                                  \* NewEventFromTrustedJSON(json, Redacted())
+      [] o = "RH" -> x                                                  \* ToHeaderedJSON + NewEventFromHeaderedJSON
+      [] o = "SU1" -> [x EXCEPT !.e = SetTop(x.e, "unsigned", "u8")]
+      [] o = "SU2" -> [x EXCEPT !.e = SetTop(x.e, "unsigned", "u9")]
+      [] o = "SF" -> [x EXCEPT !.e = SetTop(x.e, "unsigned", "uf")]
+      [] o = "SFs" -> [x EXCEPT !.e = SetTop(x.e, "unsigned", "ufs")]
+      [] o = "SFe" -> [x EXCEPT !.e = SetTop(x.e, "unsigned", "ufe")]
+      [] o = "SFl" -> [x EXCEPT !.e = SetTop(x.e, "unsigned", "ufl")]
+      [] o = "AS1" -> [x EXCEPT !.sigs =                                \* same server, another key
+                       [s \in DOMAIN x.sigs \cup {"hs1/k2"} |-> IF s = "hs1/k2" THEN SignedProj(A, x.e) ELSE x.sigs[s]]]
+      [] o = "AS2" -> [x EXCEPT !.sigs =                                \* another server
+                       [s \in DOMAIN x.sigs \cup {"hs2/k1"} |-> IF s = "hs2/k1" THEN SignedProj(A, x.e) ELSE x.sigs[s]]]
+      [] o = "RD" -> [e |-> RedactV(ver, x.e), red |-> TRUE, sigs |-> x.sigs]
+Now == [e |-> ev, red |-> redacted, sigs |-> sigs]
+Effect(o) == EffectOf(Now, o)
+\* unsigned sections that have the field age
+HasAge(e) == IF "unsigned" \in DOMAIN e.top THEN e.top["unsigned"] \in {"u1", "u2", "u8", "ufs", "ufe", "ufl"} ELSE FALSE
 
 Do(o) ==
     LET x == Effect(o) IN
@@ -341,19 +422,25 @@ OpsNext ==
     /\ Len(hist) < MaxOps
     /\ (ReparseUntrusted \/ ReparseTrusted \/ ReparseHeadered \/ SetUnsigned \/ SetUnsignedField
         \/ AddSignature \/ RedactOp)
-    /\ UNCHANGED <<ver, proto, built, wire, out, phase>>
+    /\ UNCHANGED <<ver, proto, built, wire, out, hs, kept, phase>>
 
 \* sib / tamper: the optional operation before
 Pre ==
     /\ phase = "pre"
     /\ \E o \in PreOps :
-          IF o = "none" THEN UNCHANGED <<ev, redacted, sigs, hist, ids>> ELSE Do(o)
-    /\ phase' = IF Family = "sib" THEN "sib" ELSE "tamper"
-    /\ UNCHANGED <<ver, proto, built, wire, out>>
+          /\ (proto.big # "none" => o = "none")
+          /\ IF o = "none" THEN UNCHANGED <<ev, redacted, sigs, hist, ids>> ELSE Do(o)
+    /\ phase' = IF Family = "sib" THEN "sib" ELSE IF Family = "alias" THEN "fork" ELSE "tamper"
+    /\ UNCHANGED <<ver, proto, built, wire, out, hs, kept>>
 
 \* --- Sibling(f) ----------------------------------------------------------------------------------------------
 AllSibFields == {"type", "sk", "con_kept", "con_unkept", "con_add", "con_del", "tpi", "prev", "auth", "depth",
-                 "redacts", "room", "sender", "ts", "origin", "unsigned", "sigkey"}
+                 "depth_up", "depth_max", "redacts", "room", "sender", "ts", "origin", "unsigned", "sigkey"}
+\* depth_up: the sibling's depth is the next boundary value above (2^53 - 1 -> 2^53 -> 2^53 + 1 -> 2^63 - 2 -> 2^63 - 1),
+\* depth_max: the largest; both only where the sibling is an event of the room version (BuildRefuses)
+DepthUp(d) == CASE d = "d3" -> "d4" [] d = "d4" -> "d5" [] d = "d5" -> "d6" [] d = "d6" -> "d7" [] OTHER -> d
+\* an edge variant meets the sibling fields that can tell
+SibEdgeFields == {"depth", "depth_up", "depth_max", "unsigned", "con_add"}
 \* fields that are not part of the identity
 NonIdentityFields == {"unsigned", "sigkey"}
 
@@ -370,6 +457,9 @@ SibApplicable(v, p, f) ==
       [] f = "con_unkept" -> UnkeptOf(v, p) # {}
       [] f = "con_del" -> DOMAIN p.con \ {NestedKey} # {}
       [] f = "tpi" -> p.tpi.obj
+      [] f = "depth_up" -> p.depth \in {"d3", "d4", "d5", "d6"} /\ ~EnforcedCanonJSON(v)
+      [] f = "depth_max" -> p.depth \in {"d3", "d4", "d5"} /\ ~EnforcedCanonJSON(v)
+      [] f = "depth" -> p.depth \notin HighDepths \/ ~EnforcedCanonJSON(v)
       [] OTHER -> TRUE
 
 SetPCon(p, k, val) == [p EXCEPT !.con = [x \in DOMAIN p.con \cup {k} |-> IF x = k THEN val ELSE p.con[x]]]
@@ -385,6 +475,8 @@ SibProto(v, p, f) ==
       [] f = "prev" -> [p EXCEPT !.prev = Next3(p.prev, "p0", "p1", "p2")]
       [] f = "auth" -> [p EXCEPT !.auth = Next3(p.auth, "a0", "a1", "a2")]
       [] f = "depth" -> [p EXCEPT !.depth = Next3(p.depth, "d1", "d2", "d3")]
+      [] f = "depth_up" -> [p EXCEPT !.depth = DepthUp(p.depth)]
+      [] f = "depth_max" -> [p EXCEPT !.depth = "d7"]
       [] f = "redacts" -> [p EXCEPT !.redacts = Next3(p.redacts, "none", "r1", "r2")]
       [] f = "room" -> [p EXCEPT !.room = "r2"]
       [] f = "sender" -> [p EXCEPT !.sender = "bob"]
@@ -396,13 +488,43 @@ SibProto(v, p, f) ==
 Sibling(f) ==
     /\ phase = "sib"
     /\ SibApplicable(ver, proto, f) = TRUE
+    /\ (proto.edge => f \in SibEdgeFields)
     /\ LET p2 == SibProto(ver, proto, f)
            e2 == BuildEvent(ver, p2, "E2")
        IN out' = [kind |-> "sib", f |-> f, proto2 |-> p2,
                   same |-> Id(ver, e2) = Id(ver, ev),
                   sameh |-> e2.top["hashes"] = built.top["hashes"]]
     /\ phase' = "done"
-    /\ UNCHANGED <<ver, proto, built, ev, sigs, redacted, ids, hist, wire>>
+    /\ UNCHANGED <<ver, proto, built, ev, sigs, redacted, ids, hist, wire, hs, kept>>
+
+\* --- several handles on the same bytes (family alias) ---------------------------------------------------------------
+\* The parse paths that trust their input take the caller's bytes as they are and JSON() hands out the event's own:
+\* after  q := NewEventFromTrustedJSON(p.JSON(), ..),  w := NewEventFromTrustedJSONWithEventID(id, p.JSON(), ..),
+\* h := NewEventFromHeaderedJSON(p.ToHeaderedJSON(), ..)  and  s := p.JSON()  there are several HANDLES on one text.
+\* An event is a value: an operation on one handle - an edit of unsigned (the whole section; one field that is new,
+\* or that is there, with a value shorter than / as long as / longer than the one it replaces), a further signature,
+\* a redaction - yields that handle's new event and is no business of any other handle: each of them, and the bytes
+\* a caller kept, still report exactly what they reported when they were made (same JSON, same ID - also an ID that
+\* is only computed now -, same fields, same flag), and the kept bytes still parse.  `cold`: no accessor of the other
+\* handles was read before the edit.
+Handles == {"built", "RT", "RW", "RH"}
+AliasEdits == EditNames            \* a configuration may override
+Fork ==
+    /\ phase = "fork"
+    /\ hs' = [h \in Handles |-> Now]
+    /\ kept' = Now
+    /\ phase' = "edit"
+    /\ UNCHANGED <<ver, proto, built, ev, sigs, redacted, ids, hist, wire, out>>
+Edit(who, o) ==
+    /\ phase = "edit"
+    /\ (o \in {"SFs", "SFe", "SFl"} => HasAge(hs[who].e))
+    /\ hs' = [hs EXCEPT ![who] = EffectOf(hs[who], o)]
+    /\ \E c \in BOOLEAN : out' = [kind |-> "alias", who |-> who, o |-> o, cold |-> c,
+                                  red |-> EffectOf(hs[who], o).red,
+                                  idsame |-> Id(ver, EffectOf(hs[who], o).e) = Id(ver, built)]
+    /\ phase' = "done"
+    /\ UNCHANGED <<ver, proto, built, ev, sigs, redacted, ids, hist, wire, kept>>
+AliasNext == Fork \/ \E who \in Handles, o \in AliasEdits : Edit(who, o)
 
 \* --- Tamper(T, hm) on the wire, then ReparseUntrusted -------------------------------------------------------------
 TamperElems == {"con_out_chg", "con_out_add", "con_in", "tpi_chg", "top_add", "origin_chg", "depth_chg", "unsigned",
@@ -421,8 +543,6 @@ TamperApplicable(v, e, x) ==
       [] OTHER -> TRUE
 ApplicableElems(v, e) == {x \in TamperElems : TamperApplicable(v, e, x)}
 
-OnIf(c, e, k, val) == IF c THEN SetTop(e, k, val) ELSE e
-
 \* How the NAME of a key that is stripped on receipt is written on the wire (class: unusual spellings).  A member
 \* name is a JSON string: "\u0061ge_ts" IS the name age_ts (RFC 8259, section 7: the escapes are part of the
 \* spelling, not of the string), so "esc" is the plain tampering in other bytes - the model has ONE event for both
@@ -438,10 +558,12 @@ NameOnWire(v, k, sp) == IF sp = "case" /\ k \in Stripped(v) THEN OtherCase(k) EL
 WireVersions == Versions
 DupShapes == ShapeIds
 
-ApplyT(v, e, T, sp) ==
-    LET e1 == IF "con_out_chg" \in T THEN SetCon(e, Pick(OutKeys(v, e)), "tampered") ELSE e
-        e2 == IF "con_out_add" \in T THEN SetCon(e1, "zz_added", "tampered") ELSE e1
-        e3 == IF "con_in" \in T THEN SetCon(e2, Pick(InKeys(v, e)), "tampered") ELSE e2
+\* tk: the value token the tampering writes ("tampered"; TamperBulk: a heavy one)
+ApplyTk(v, e, T, sp, tk) ==
+    LET OnIf(c, x, k, val) == IF c THEN SetTop(x, k, tk) ELSE x
+        e1 == IF "con_out_chg" \in T THEN SetCon(e, Pick(OutKeys(v, e)), tk) ELSE e
+        e2 == IF "con_out_add" \in T THEN SetCon(e1, "zz_added", tk) ELSE e1
+        e3 == IF "con_in" \in T THEN SetCon(e2, Pick(InKeys(v, e)), tk) ELSE e2
         e3b == IF "tpi_chg" \in T
                THEN [e3 EXCEPT !.tpi = [obj |-> TRUE, keys |-> [k \in DOMAIN e3.tpi.keys |->
                                                                     IF k = "signed" THEN "tampered" ELSE e3.tpi.keys[k]]]]
@@ -451,9 +573,11 @@ ApplyT(v, e, T, sp) ==
         e6 == OnIf("depth_chg" \in T, e5, "depth", "tampered")
         e7 == OnIf("unsigned" \in T, e6, NameOnWire(v, "unsigned", sp), "tampered")
         e8 == OnIf("age_ts" \in T, e7, NameOnWire(v, "age_ts", sp), "tampered")
-        e9 == OnIf("outdest" \in T, OnIf("outdest" \in T, e8, NameOnWire(v, "outlier", sp), "tampered"),
+        e8b == IF "outdest" \in T THEN SetTop(e8, NameOnWire(v, "outlier", sp), "tampered") ELSE e8     \* a flag: never heavy
+        e9 == OnIf("outdest" \in T, e8b,
                    NameOnWire(v, "destinations", sp), "tampered")
     IN OnIf("event_id" \in T, e9, NameOnWire(v, "event_id", sp), "tampered")
+ApplyT(v, e, T, sp) == ApplyTk(v, e, T, sp, "tampered")
 
 ApplyH(v, e, hm) ==
     CASE hm = "keep" -> e
@@ -473,9 +597,9 @@ Tamper(T, hm, sp) ==
     /\ out' = [kind |-> "tampered", T |-> T, hm |-> hm, sp |-> sp,
                kout |-> IF "con_out_chg" \in T THEN Pick(OutKeys(ver, ev)) ELSE "",
                kin |-> IF "con_in" \in T THEN Pick(InKeys(ver, ev)) ELSE "",
-               vk |-> "", vs |-> "", vpos |-> ""]
+               vk |-> "", vs |-> "", vpos |-> "", bulk |-> "none"]
     /\ phase' = "parse"
-    /\ UNCHANGED <<ver, proto, built, ev, sigs, redacted, ids, hist>>
+    /\ UNCHANGED <<ver, proto, built, ev, sigs, redacted, ids, hist, hs, kept>>
 
 \* the receiving server parses what arrived
 ParseSingle ==
@@ -485,14 +609,15 @@ ParseSingle ==
           /\ redacted' = r.red
           /\ Log("TRU", out.hm, r.e, r.red)
           /\ out' = [kind |-> "tamper", T |-> out.T, hm |-> out.hm, sp |-> out.sp, kout |-> out.kout, kin |-> out.kin,
-                     vk |-> out.vk, vs |-> out.vs, vpos |-> out.vpos,
+                     vk |-> out.vk, vs |-> out.vs, vpos |-> out.vpos, bulk |-> out.bulk,
                      red |-> r.red,
+                     refused |-> TooLarge(r.e),             \* what surfaces is over the limit: no event is handed out
                      noop |-> RedactV(ver, Received(ver, wire)) = Received(ver, wire),   \* nothing to redact
                      topk |-> DOMAIN r.e.top, conk |-> DOMAIN r.e.con, tpik |-> DOMAIN r.e.tpi.keys,
                      idsame |-> Id(ver, r.e) = Id(ver, built),
                      valid |-> {s \in DOMAIN sigs : sigs[s] = SignedProj(A, r.e)}]
     /\ phase' = "done"
-    /\ UNCHANGED <<ver, proto, built, sigs, wire>>
+    /\ UNCHANGED <<ver, proto, built, sigs, wire, hs, kept>>
 
 TamperSets(E) == {T \in SUBSET E : Cardinality(T) <= TamperMax \/ Cardinality(T) >= Cardinality(E) - 1}
 
@@ -505,7 +630,7 @@ SecondSignerShape == "membership" \in DOMAIN proto.con /\ (proto.con["membership
                         \/ (IF "join_authorised_via_users_server" \in DOMAIN proto.con
                             THEN proto.con["join_authorised_via_users_server"] = "hs2" ELSE FALSE))
 TamperPlain ==
-    /\ phase = "tamper"
+    /\ phase = "tamper" /\ proto.big = "none"
     /\ \E T \in (IF PreRedacted \/ SecondSignerShape \/ Len(hist) > 0 \/ proto.lim # "none"
                   THEN {X \in SUBSET ApplicableElems(ver, ev) : Cardinality(X) <= (IF TamperMax > 2 /\ ~PreRedacted THEN 2 ELSE 1)}
                   ELSE TamperSets(ApplicableElems(ver, ev))) :
@@ -522,7 +647,7 @@ SpeltSets(v) == {T \in SUBSET (StrippedElems(v) \cup {"con_out_add"}) :
                     /\ Cardinality(T) <= (IF TamperMax > 2 THEN 3 ELSE 2)
                     /\ (TamperMax <= 2 /\ Cardinality(T) = 2 => "con_out_add" \in T)}
 TamperSpelt ==
-    /\ phase = "tamper" /\ Len(hist) = 0 /\ proto.lim = "none" /\ ver \in WireVersions
+    /\ phase = "tamper" /\ Len(hist) = 0 /\ proto.lim = "none" /\ proto.big = "none" /\ ver \in WireVersions
     /\ \E T \in SpeltSets(ver), sp \in WireSpells \ {"plain"}, hm \in {"keep", "garbage", "rehash"} :
         /\ ((hm = "rehash") => (T \cap HashedElemsSp(ver, sp) # {})) = TRUE
         \* "Event_ID": enumerated with the variants of the protected names (TamperVariant), for every room version
@@ -579,7 +704,7 @@ DupReadings(v, e, m, pos, hm) ==
     IN [first |-> wh(IF pos = "before" THEN s ELSE g), last |-> wh(IF pos = "before" THEN g ELSE s)]
 
 TamperDup ==
-    /\ phase = "tamper" /\ Len(hist) = 0 /\ proto.lim = "none" /\ ver \in WireVersions
+    /\ phase = "tamper" /\ Len(hist) = 0 /\ proto.lim = "none" /\ proto.big = "none" /\ ver \in WireVersions
     /\ \E i \in DupShapes : proto.con = Shape(i).con /\ proto.type = Shape(i).type /\ proto.sk = Shape(i).sk
     /\ \E m \in DupMembers, pos \in {"before", "after"}, sp \in {"plain", "esc"} :
        \E hm \in DupHashModes(ver, ev, m) :
@@ -590,7 +715,7 @@ TamperDup ==
         /\ out' = [kind |-> "duplicated", m |-> m, pos |-> pos, sp |-> sp, hm |-> hm,
                    rd |-> DupReadings(ver, ev, m, pos, hm)]
         /\ phase' = "parse"
-        /\ UNCHANGED <<ver, proto, built, ev, sigs, redacted, ids, hist>>
+        /\ UNCHANGED <<ver, proto, built, ev, sigs, redacted, ids, hist, hs, kept>>
 
 \* the parser settles for one reading (which one is its business) and treats it as the event that arrived
 Readings == {"first", "last"}
@@ -611,7 +736,7 @@ ParseDuplicated ==
                      styp |-> IF out.m = "type" THEN SmuggledType(ver, built) ELSE "",
                      first |-> DupSummary(ver, out.rd["first"]), last |-> DupSummary(ver, out.rd["last"])]
     /\ phase' = "done"
-    /\ UNCHANGED <<ver, proto, built, sigs, wire>>
+    /\ UNCHANGED <<ver, proto, built, sigs, wire, hs, kept>>
 
 \* --- a name that differs from a name the event format knows only in letter case (class: unusual spellings) ---------
 \* Member names are compared code point by code point: "Sender", "TYPE", "Event_ID" - or "\u017Fender", whose first
@@ -628,24 +753,53 @@ Foldable == {"sender", "state_key", "hashes", "signatures", "prev_events", "prev
              "origin_server_ts", "membership", "redacts"}        \* names with an s (U+017F) or a k (U+212A)
 VariantName(k, vs) == k \o "~" \o vs
 TamperVariant ==
-    /\ phase = "tamper" /\ Len(hist) = 0 /\ proto.lim = "none" /\ ver \in WireVersions
+    /\ phase = "tamper" /\ Len(hist) = 0 /\ proto.lim = "none" /\ proto.big = "none" /\ ver \in WireVersions
     /\ \E i \in DupShapes : proto.con = Shape(i).con /\ proto.type = Shape(i).type /\ proto.sk = Shape(i).sk
     /\ \E k \in ProtectedNames, vs \in VariantKinds, pos \in {"before", "after"}, hm \in {"keep", "rehash"} :
         /\ (vs = "fold" => k \in Foldable)
         /\ (k \notin DOMAIN ev.top => pos = "before")                 \* no genuine member to stand next to
         /\ wire' = ApplyH(ver, SetTop(ev, VariantName(k, vs), "tampered"), hm)
         /\ out' = [kind |-> "tampered", T |-> {"top_add"}, hm |-> hm, sp |-> "plain", kout |-> "", kin |-> "",
-                   vk |-> k, vs |-> vs, vpos |-> pos]
+                   vk |-> k, vs |-> vs, vpos |-> pos, bulk |-> "none"]
         /\ phase' = "parse"
-        /\ UNCHANGED <<ver, proto, built, ev, sigs, redacted, ids, hist>>
+        /\ UNCHANGED <<ver, proto, built, ev, sigs, redacted, ids, hist, hs, kept>>
 
-TamperNext == TamperPlain \/ TamperSpelt \/ TamperDup \/ TamperVariant
+\* --- a wire form over the size limit (class: sizes) -----------------------------------------------------------------
+\* Bulk - 70 KiB on the small event, 30 KiB on the event of 40 KiB, so that the wire form is over the limit and what
+\* was added is not, nor is the event - goes into ONE place: a key stripped on receipt (unsigned, age_ts, destinations
+\* next to outlier, event_id from room version 3 on), a content key off the keep list (changed / added), an extra
+\* top-level key, a kept content key; into a stripped key and an added content key at once; or between the members
+\* (white space: "pad", the same event in more bytes).  Hash as built, garbage, or the forger's.
+BulkTokens == {"bulk30", "bulk70"}
+BulkElems(v) == StrippedElems(v) \cup {"con_out_chg", "con_out_add", "top_add", "con_in"}
+BulkSets(v, e) == {T \in SUBSET (BulkElems(v) \cap ApplicableElems(v, e)) :
+                      \/ Cardinality(T) <= 1
+                      \/ (Cardinality(T) = 2 /\ "con_out_add" \in T /\ T \cap StrippedElems(v) # {})}
+TamperBulk ==
+    /\ phase = "tamper" /\ Len(hist) = 0 /\ proto.lim = "none" /\ ver \in BulkVersions
+    /\ \E i \in BulkShapes : /\ proto.type = Shape(i).type /\ proto.sk = Shape(i).sk
+                              /\ DOMAIN proto.con \ {"zz_big"} = DOMAIN Shape(i).con
+    /\ \E T \in BulkSets(ver, ev), bk \in BulkTokens, hm \in {"keep", "rehash", "garbage"} :
+        /\ ((proto.big = "none") <=> (bk = "bulk70")) = TRUE
+        /\ ((hm = "rehash") => (T \cap HashedElems(ver) # {})) = TRUE
+        \* hashed material tampered with fails the hash as built already: garbage with the stripped keys / the padding
+        /\ ((hm = "garbage") => (T \subseteq StrippedElems(ver))) = TRUE
+        /\ wire' = ApplyH(ver, ApplyTk(ver, ev, T, "plain", bk), hm)
+        /\ out' = [kind |-> "tampered", T |-> T, hm |-> hm, sp |-> "plain",
+                   kout |-> IF "con_out_chg" \in T THEN Pick(OutKeys(ver, ev)) ELSE "",
+                   kin |-> IF "con_in" \in T THEN Pick(InKeys(ver, ev)) ELSE "",
+                   vk |-> "", vs |-> "", vpos |-> "", bulk |-> IF T = {} THEN "pad" ELSE bk]
+        /\ phase' = "parse"
+        /\ UNCHANGED <<ver, proto, built, ev, sigs, redacted, ids, hist, hs, kept>>
+
+TamperNext == TamperPlain \/ TamperSpelt \/ TamperDup \/ TamperVariant \/ TamperBulk
 ParseTampered == ParseSingle \/ ParseDuplicated
 
 Next ==
     \/ (Family \in OpsFamilies /\ OpsNext)
     \/ (Family \notin OpsFamilies /\ Pre)
     \/ (Family = "sib" /\ \E f \in SibFields : Sibling(f))
+    \/ (Family = "alias" /\ AliasNext)
     \/ (Family = "tamper" /\ TamperNext)
     \/ (Family = "tamper" /\ ParseTampered)
 
@@ -685,6 +839,17 @@ PSibling ==
 \* ... and the content hash covers every field but unsigned / signatures as well
 PSiblingHash ==
     (phase = "done" /\ Family = "sib" /\ HashedIdentity) => (out.sameh <=> out.f \in NonIdentityFields)
+\* C03: an operation on one handle leaves every observation of every other handle on the same bytes, and the bytes a
+\* caller kept, as they were; and is itself one of the operations that do not change the identity
+ADone == phase = "done" /\ Family = "alias"
+PAliasIndependent ==
+    ADone => /\ \A h \in Handles \ {out.who} : hs[h] = kept
+             /\ \A h \in Handles : Id(ver, hs[h].e) = Id(ver, built)
+             /\ out.idsame
+             /\ ParseUntrusted(ver, kept.e) = ParseUntrusted(ver, ev)
+\* (sanity) the edit did happen: the handle it was made on reports something else, or was redacted before already
+PAliasEdited ==
+    (ADone /\ out.o \in {"SU2", "SF", "SFs", "SFe", "SFl"}) => hs[out.who] # kept
 \* C03: domainless room IDs
 PV12 ==
     DomainlessRoomIDs(ver) =>
@@ -749,6 +914,22 @@ PVariantIsAnotherKey ==
         /\ (out.hm = "rehash" => ~out.red /\ n \in out.topk
                                   /\ DropTop(ev, {n, "hashes"}) = DropTop(Received(ver, built), {"hashes"}))
 
+\* C04 and the size limit: it is the event that surfaces that is measured - the wire form minus the keys stripped on
+\* receipt (minus the white space), redacted first if the content hash fails
+PSizeOfTheEvent ==
+    TDone => (out.refused <=> TooLarge(IF Mismatch THEN RedactV(ver, Received(ver, wire)) ELSE Received(ver, wire)))
+\* ... so bulk in what is stripped on receipt, or between the members, changes nothing: the untampered event's outcome
+PBulkStrippedNeutral ==
+    (TDone /\ out.sp = "plain" /\ out.T \subseteq StrippedElems(ver) /\ out.hm = "keep" /\ ~PreRedacted) =>
+        (ev = Received(ver, built) /\ (out.refused <=> TooLarge(Received(ver, built))))
+\* ... and bulk in redactable material whose hash fails is gone with the redaction: the redacted original's outcome
+PBulkRedactable ==
+    (TDone /\ OnlyRedactable /\ Mismatch /\ ~PreRedacted) =>
+        (ev = RedactV(ver, Received(ver, built)) /\ (out.refused <=> TooLarge(RedactV(ver, Received(ver, built)))))
+\* (sanity) the dimension is there: a bulk tampering makes the wire form larger than the limit
+PBulkIsOverOnTheWire ==
+    (TDone /\ out.bulk \in BulkTokens) => TooLarge(wire)
+
 \* C04, a member that occurs twice: what is handed out is ONE reading of the text - unredacted only if the content
 \* hash of that reading matches, otherwise its redacted form ((ii) and (iii); a refusal hands out nothing)
 DDone == phase = "done" /\ Family = "tamper" /\ out.kind = "dup"
@@ -776,5 +957,5 @@ TypeOK ==
     /\ WellFormed(ev) /\ WellFormed(built)
     /\ <<proto.sname, proto.skey>> \in AllSpellings
     /\ Len(ids) = Len(hist) + 1
-    /\ phase \in {"ops", "pre", "sib", "tamper", "parse", "done", "refused"}
+    /\ phase \in {"ops", "pre", "sib", "fork", "edit", "tamper", "parse", "done", "refused"}
 =============================================================================
